@@ -1,5 +1,5 @@
 SPECIFICATION TSpec
-CONSTANTS Atomic = TRUE
+CONSTANTS Atomic = FALSE
 CHECK_DEADLOCK FALSE
 CONSTRAINT Progress
 INVARIANT NotDone
